@@ -1123,7 +1123,7 @@ fn gen_t(out: &mut Vec<String>, seed: u64, thorough: bool) {
                 }
             }
         }
-        let n = if thorough { 60_000 } else { 2_500 };
+        let n = if thorough { 30_000 } else { 2_500 };
         for _ in 0..n {
             let b = match rng.below(8) {
                 0 => rng.next() as u32,
@@ -1138,7 +1138,7 @@ fn gen_t(out: &mut Vec<String>, seed: u64, thorough: bool) {
         out.push(format!("T BC1_UNORM {s} 0 1065353216"));
         out.push(format!("T BC1_UNORM 1065353216 {s} 0"));
     }
-    let n = if thorough { 80_000 } else { 4_000 };
+    let n = if thorough { 40_000 } else { 4_000 };
     for _ in 0..n {
         let mut ch = [0u32; 3];
         for (i, c) in ch.iter_mut().enumerate() {
